@@ -31,7 +31,48 @@ func genC03(t *rapid.T) KeyCase {
 func genC04(t *rapid.T) KeyCase {
 	d := genWorld(t, WorldOpts{Modes: allModes, MaxMappings: 3, Actions: allKeyActions[:10], ActionProb: 85, WideDefaults: true, Subs: 2, Velocity0: true, Overlap: true})
 	steps := genHistory(t, d, HistOpts{MaxLen: 60, StateBias: 30, BurstMax: 14, NoPanic: true})
-	steps = boundTransposition(d, steps)
+	// now and then one transposition action is tapped more than 128 times in a row (every value is reachable; the counters
+	// must keep counting), followed by a few note presses under that transposition and on the way back
+	if rapid.IntRange(0, 11).Draw(t, "longRun") == 0 {
+		h := newHistState(d)
+		var tr []uint16
+		for _, c := range h.actKeys {
+			switch h.actions[c] {
+			case "octave_up", "octave_down", "semitone_up", "semitone_down":
+				tr = append(tr, c)
+			}
+		}
+		sort.Slice(tr, func(i, j int) bool { return tr[i] < tr[j] })
+		if len(tr) > 0 && len(h.noteKeys) > 0 {
+			// (appended after the history: every key is let go first)
+			var tail []Step
+			downNow := map[PK]bool{}
+			for _, s := range steps {
+				if s.T == "key" {
+					downNow[PK{s.SK(), s.Code}] = s.Val == 1
+				}
+			}
+			for _, s := range steps {
+				if k := (PK{s.SK(), s.Code}); s.T == "key" && downNow[k] {
+					tail = append(tail, Step{T: "key", Sub: s.Sub, Node: s.Node, Code: s.Code, Val: 0})
+					downNow[k] = false
+				}
+			}
+			c := tr[rapid.IntRange(0, len(tr)-1).Draw(t, "longRunAction")]
+			tapK := func(code uint16, sub string) {
+				tail = append(tail, Step{T: "key", Sub: sub, Code: code, Val: 1}, Step{T: "key", Sub: sub, Code: code, Val: 0})
+			}
+			n := rapid.IntRange(120, 140).Draw(t, "longRunTaps")
+			for i := 0; i < n; i++ {
+				tapK(c, "")
+				if i > 100 && rapid.IntRange(0, 5).Draw(t, "noteMeanwhile") == 0 {
+					k := h.noteKeys[rapid.IntRange(0, len(h.noteKeys)-1).Draw(t, "noteKey")]
+					tapK(k&^(twinBit|nodeBit), h.sub[k])
+				}
+			}
+			steps = append(steps, tail...)
+		}
+	}
 	return KeyCase{D: d, Steps: steps, NoLogs: rapid.IntRange(0, 7).Draw(t, "nologs") > 0, Bystander: genBystander(t, d)}
 }
 
